@@ -396,7 +396,34 @@ def route12(ctx: Any) -> List[Ob]:
     question at once; everything else aggregated).  Same table as C11.ROUTE part (c)."""
     from .c11 import mcast_table
 
-    return mcast_table(ctx, 'C12.ROUTE')
+    R = 'C12.ROUTE'
+    prog = ctx.prog
+    obs = mcast_table(ctx, R)
+    # `a query consisting of a single SRV / A / AAAA / NSEC question` is judged on the questions the querier ASKED (all of
+    # them), not on the ones this host can answer: what is handed to the response builder comes from the packets only
+    ar = prog.func('zeroconf._handlers.query_handler.QueryHandler.async_response')
+    ctor = [c for c in walk_local_ordered(ar.node) if isinstance(c, ast.Call) and call_name(c) == '_QueryResponse']
+    if len(ctor) != 1 or len(ctor[0].args) < 2:
+        raise AnalysisError('anchor vanished: construction of _QueryResponse in async_response')
+    qx = expand(ar, ctor[0].args[1])
+    bound = {g.target.id for c_ in ast.walk(qx) if isinstance(c_, (ast.ListComp, ast.GeneratorExp, ast.SetComp)) for g in c_.generators if isinstance(g.target, ast.Name)}
+    free = {x.id for x in ast.walk(qx) if isinstance(x, ast.Name)} - bound
+    pk_param = ar.params[1]
+
+    def packet_derived(nm: str, depth: int = 3) -> bool:
+        """every definition of local `nm` is an expression over the packets parameter, or a loop variable over it"""
+        if nm == pk_param:
+            return True
+        if depth == 0:
+            return False
+        vals = [st.value for st in walk_local_ordered(ar.node) if isinstance(st, ast.Assign) and any(isinstance(t, ast.Name) and t.id == nm for t in st.targets)]
+        loops_ = [lp.iter for lp in walk_local_ordered(ar.node) if isinstance(lp, ast.For) and isinstance(lp.target, ast.Name) and lp.target.id == nm]
+        srcs = vals + loops_
+        return bool(srcs) and all(all(packet_derived(x.id, depth - 1) for x in ast.walk(v) if isinstance(x, ast.Name)) for v in srcs)
+
+    from_packets = all(packet_derived(n_) for n_ in free) and any(isinstance(x, ast.Attribute) and x.attr in ('_questions', 'questions') for x in ast.walk(qx))
+    obs.append(ob(R, ar, ctor[0], 'the question list that decides `single question, answer at once` is the list of questions asked in the packets', from_packets, '' if from_packets else f'`{norm(qx)[:80]}` is not derived from the packets alone'))
+    return obs
 
 
 EXPLANATION = (
